@@ -21,6 +21,48 @@ CLAIMED = {
  "C16": ("Lean 4 theorems (HT schema M3/M3-converse/M3f; decision kernel of good_split / project_rule in the model) + exact-output correspondence of binding analysis and projection + clingo oracle (one-to-one, safety) as failing-input search",
          "Proved (ground level): definitional extension is sound and complete and folding keeps stable models => a split is a conservative one-to-one extension. Proved about the model of projection.py: C16_good_split_sound (accepted split => aux body binds all its variables, rest safe given the interface, interface = globals(new) ∩ (vars(rest) ∪ globals(head)), no global variable becomes local, rest keeps a positive atom, aggregates whole), C16_split_shape (schema shape, fresh aux via C07). Tie: Binding.lean (370 lines) and Projection.lean (125 lines) reproduce the Python functions exactly on 8k quick / 480k thorough evaluations (~19% of pipeline programs split). Not proved: binding analysis = gringo safety; syntactic => ground side condition (validated by clingo).",
          "Oracle trusts clingo; normal-form findings D3, D8, D19 are shared with C05.", "§9 C16"),
+ 'C01': ('Lean 4 composition theorems (M10) + schedule of the api.optimize model + clingo differential oracle end-to-end under trait subsets',
+         'Proved: composition of observation-preserving steps of any length, coarsening to OUT, conservative extension => OUT equivalence, satisfiability preserved, schedule = enabled passes in documented order. Partial: the per-pass premises are C05/C08-C16 (proved as far as those files say). Validated on the real optimize under default/all/random traits with auto/explicit declarations.',
+         "Semantics is ours (published HT / Abstract-Gringo reading, ground level); the pass's syntactic decisions are tied to the schema's side conditions only through the clingo oracle on the real code; instance facts only over the declared/auto-detected inputs; findings per known_findings.json.", '§9 C01'),
+ 'C02': ('Lean 4 theorems (composition with cost; telescoping; sum-of-sums iff distinct tuples, with counterexample) + cost-aware clingo oracle',
+         "Proved: cost-carrying composition, telescoping chain weights, flattening exact iff tuple sets disjoint. The passes' tuple decisions are validated with (answer set on OUT, cost per priority) pairs on objective-bearing programs.",
+         "Semantics is ours (published HT / Abstract-Gringo reading, ground level); the pass's syntactic decisions are tied to the schema's side conditions only through the clingo oracle on the real code; instance facts only over the declared/auto-detected inputs; findings per known_findings.json.", '§9 C02'),
+ 'C05': ('Lean 4 theorems (comparison tables regenerated from utils/ast.py; chain splitting with counterexample; #count = #sum+) + exact-output correspondence of the normalize.py model + clingo oracle with facts over any predicate',
+         'Proved: rhs2lhs/negate/compare table theorems (total, correct over Int), chain expansion preserves denotation for non-negated literals (negated chains: counterexample D8), #count=#sum+ over arbitrary tuple sets, tag injectivity. Tie: Normalize.lean (650 lines: preprocess up to unpool, exline, inline_arithmetic) vs normalize.py exactly, unpool and global_vars as parameters from the real run.',
+         "Semantics is ours (published HT / Abstract-Gringo reading, ground level); the pass's syntactic decisions are tied to the schema's side conditions only through the clingo oracle on the real code; instance facts only over the declared/auto-detected inputs; findings per known_findings.json.", '§9 C05'),
+ 'C06': ('Lean 4 theorems (conservative extensions compose, projection injective, M3 both directions, M4 =>) + clingo oracle (voc(P) content and answer-set count)',
+         'Proved: ConsExt transitivity and injectivity (same number of answer sets), auxiliary definitions are one-to-one extensions (non-recursive: both directions; positive-recursive: soundness only, partial). Observed on the real code under subsets of the seven traits.',
+         "Semantics is ours (published HT / Abstract-Gringo reading, ground level); the pass's syntactic decisions are tied to the schema's side conditions only through the clingo oracle on the real code; instance facts only over the declared/auto-detected inputs; findings per known_findings.json.", '§9 C06'),
+ 'C09': ('Lean 4 theorems (definitional extension read backwards) + clingo oracle on IN u OUT with costs, random/auto declarations, targeted generator',
+         "Proved: removing the plain rules of an unobserved predicate is the inverse of a one-to-one extension; remaining atoms unchanged. unused.py's scan/projection/copy decisions are validated on the real code (model Model/Unused.lean when integrated). Findings D31 and shared normal-form findings.",
+         "Semantics is ours (published HT / Abstract-Gringo reading, ground level); the pass's syntactic decisions are tied to the schema's side conditions only through the clingo oracle on the real code; instance facts only over the declared/auto-detected inputs; findings per known_findings.json.", '§9 C09'),
+ 'C10': ('Lean 4 theorems (M3 + folding M3f) + clingo oracle on voc(P), targeted generator',
+         "Proved: factoring = definitional extension + folding under the schema's hypotheses; pass decisions validated by the oracle.",
+         "Semantics is ours (published HT / Abstract-Gringo reading, ground level); the pass's syntactic decisions are tied to the schema's side conditions only through the clingo oracle on the real code; instance facts only over the declared/auto-detected inputs; findings per known_findings.json.", '§9 C10'),
+ 'C11': ('Lean 4 theorems (!= to < for symmetric contexts with counterexample; two witnesses = count >= 2; aux rule extension) + clingo oracle, targeted generator',
+         'Proved: the two ground-level equivalences and their failure without symmetry; the syntactic symmetry test is validated by the oracle (finding D28).',
+         "Semantics is ours (published HT / Abstract-Gringo reading, ground level); the pass's syntactic decisions are tied to the schema's side conditions only through the clingo oracle on the real code; instance facts only over the declared/auto-detected inputs; findings per known_findings.json.", '§9 C11'),
+ 'C12': ('Lean 4 theorems (chain = <= max; result rule picks the max; empty case; M4 =>; telescoping) + clingo oracle incl. empty domains and costs, targeted generator over all guard shapes/signs',
+         'Proved: ground-level correctness of the chain encoding over a finite domain with its covering relation, given a selected element; empty case needs the #inf/#sup rule (finding D1). Templates/decisions validated by the oracle (findings D1, D6, D7, D12, D15).',
+         "Semantics is ours (published HT / Abstract-Gringo reading, ground level); the pass's syntactic decisions are tied to the schema's side conditions only through the clingo oracle on the real code; instance facts only over the declared/auto-detected inputs; findings per known_findings.json.", '§9 C12'),
+ 'C13': ('Lean 4 theorems (telescoping; disjoint tuple sets) + correspondence of the at-most-one / eligibility model + clingo oracle with per-group domains and costs',
+         'Proved: telescoping for any sorted domain, sum over tagged tuple sets. Tie: Model/SumAgg.lean (AggAnalytics, at-most-one analysis, eligibility, potentially_unifying) vs sum_aggregates.py exactly. Rewriting templates validated by the oracle (findings D16, D17).',
+         "Semantics is ours (published HT / Abstract-Gringo reading, ground level); the pass's syntactic decisions are tied to the schema's side conditions only through the clingo oracle on the real code; instance facts only over the declared/auto-detected inputs; findings per known_findings.json.", '§9 C13'),
+ 'C14': ('Lean 4 theorems (exact elimination iff divisibility, unit case, counterexample; table theorems; merge = sum of sums) + clingo oracle with integers of both signs, targeted generator',
+         'Proved: elimination criterion and its failure for X = Y*3; nothing is proved about sympy (external parameter). Findings D5, D32, D33.',
+         "Semantics is ours (published HT / Abstract-Gringo reading, ground level); the pass's syntactic decisions are tied to the schema's side conditions only through the clingo oracle on the real code; instance facts only over the declared/auto-detected inputs; findings per known_findings.json.", '§9 C14'),
+ 'C15': ('Lean 4 theorems (sum-of-sums iff disjoint with counterexample; helper removal = inverse extension) + clingo oracle on IN u OUT with costs, targeted generator',
+         'Proved: flattening criterion; candidate selection/padding validated by the oracle (findings D11/D13).',
+         "Semantics is ours (published HT / Abstract-Gringo reading, ground level); the pass's syntactic decisions are tied to the schema's side conditions only through the clingo oracle on the real code; instance facts only over the declared/auto-detected inputs; findings per known_findings.json.", '§9 C15'),
+ 'C04': ("Lean 4 theorems (rules created by projection safe by ngo's binding analysis; make_unique lexical; fresh predicates) + exact correspondence of the binding-analysis model + observation of ProgramBuilder / grounding / print-parse-print / AST-vs-text on the real code",
+         "Proved about the models: C04_projection_safe, C04_make_unique_lexical, C04_fresh_predicates; the binding analysis is a total Lean function equal to utils/ast.py on all compared inputs. Observed (runtime facts of clingo, no model exhibits them): every returned statement is accepted by ProgramBuilder and grounds, prints to a fixpoint, and the AST path and the text path give the same answer sets. Findings D19, D30, D35; Variable('none') repaired.",
+         "clingo's parser/printer/grounder are external; agreement of ngo's binding analysis with gringo's safety is decided by observation only.", '§9 C04'),
+ 'C17': ('Lean 4 permutation/set-invariance theorems for the hash-ordered iteration sites of the models + observation of the Python runtime (hash seeds, argument snapshots, call history)',
+         "Proved: membership in auto_detect_input's result, success of the any-search over cleanup's mapping set and the names handed out by UniqueNames depend on their containers only as sets. NOT claimed: determinism of Lean functions (vacuous). Decided by observation on the real code: byte-identical stdout of `python -m ngo` under 8 quick / 48 thorough PYTHONHASHSEEDs, str() of every argument statement before/after optimize, same result after a history of unrelated calls and on a second call. One hash-order defect (unused) repaired.",
+         'Hash seeds, id-keyed caches, AST.update aliasing and in-place edits are runtime behaviour no Lean model exhibits; an order dependence no explored program/seed exhibits is not detected.', '§9 C17'),
+ 'C20': ("Lean 4 theorems (executable order specification = least/greatest/covering relation for every integer list; M4 =>) + exact correspondence of the dependency.py model + extension-level comparison of clingo's answer sets with the specification recomputed by the Lean driver",
+         'Proved: orderSpec (insertion sort w/o duplicates + consecutive pairs) yields exactly min, max and the covering relation (C20_order_spec_min/max/next). Tie: Dependency.lean (static analysis, domain computation, name memo, templates) vs dependency.py exactly. On the real code, per answer set and group: __min_/__max_/__next_ extensions = specification of the __dom_ extension; p subset of dom_p; dom_p equal across answer sets. Finding D6 (negation under-approximates).',
+         "Only integer-valued groups are compared (clingo's term order is not modelled); M4's converse not proved.", '§9 C20'),
 }
 PENDING = {}
 props = [json.loads(l) for l in open(os.path.join(VERIF, "properties.jsonl"))]
